@@ -495,7 +495,7 @@ func TestVerif_C02_e2eh1(t *testing.T) {
 	defer peer.ln.Close()
 	dir := t.TempDir()
 	base := "http://" + peer.ln.Addr().String()
-	n := verifh.N(260, 6000)
+	n := verifh.N(260, 3000)
 	var cl *Client
 	reqs := 0
 	fails := 0
